@@ -1337,6 +1337,25 @@ def directed_specs(r, prop):
                 "interactions": [{"name": "wi0", "pairs": [["pa", "pa", 1.0], ["pa", "pb", 0.5], ["pb", "pa", 0.2], ["pb", "pb", 1.0]]}]}
         spec["pars"][0]["value"] = {"pa": 0.3, "pb": 0.6}
         out.append(("directed: population aggregation weighted by a function parameter (zw0 = q0*c0/(c0+c1+1))", spec))
+    if prop in ("C06", "C13"):
+        # (d) a dependency chain two deep below a program target, none of it depending on the state: tp0 (targeted) -> xb0 = 2*tp0 (no transition) -> ra0 = xb0 + 0.01 (transition)
+        # (e) a program outcome on a function parameter that drives nothing (pure output), and an output that depends on it
+        for variant in ("chain", "output-target"):
+            Y = start + r.choice([2, 1, 3]) * dt
+            if variant == "chain":
+                pars = [_P("tp0", "probability", 0.05, pops, targetable=True), _P("xb0", "probability", None, pops, function="2*tp0", databook=False),
+                        _P("ra0", "probability", None, pops, function="xb0+0.01", databook=False), _P("ra1", "rate", 0.1, pops)]
+                tgt, label = "tp0", f"directed: dependency chain two deep below the program target tp0 (xb0 = 2*tp0, ra0 = xb0 + 0.01), programs from {Y}"
+            else:
+                pars = [_P("xd0", "probability", 0.3, pops), _P("tp0", "probability", None, pops, function="0.5*xd0", databook=False, targetable=True),
+                        _P("xo0", "probability", None, pops, function="tp0+0.125", databook=False), _P("ra0", "rate", 0.2, pops), _P("ra1", "rate", 0.1, pops)]
+                tgt, label = "tp0", f"directed: program outcome on the function parameter tp0 = 0.5*xd0 that drives no transition (and xo0 = tp0 + 0.125), programs from {Y}"
+            spec = {"comps": [{"name": "c0", "kind": "normal", "databook": True, "init": {"pa": 100.0}}, {"name": "c1", "kind": "normal", "databook": True, "init": {"pa": 10.0}}],
+                    "characs": [], "pars": pars, "transitions": [["c0", "c1", "ra0"], ["c1", "c0", "ra1"]], "pops": pops, "transfers": [], "settings": [start, start + 6 * dt, dt],
+                    "progspec": {"programs": [{"name": "P0", "pops": pops, "comps": ["c0"], "uc_units": "$/person/year", "spend": r.choice([75.0, 30.0, 4000.0]), "uc": 1.0}],
+                                 "covouts": [{"par": tgt, "pop": "pa", "inter": "additive", "imp": None, "baseline": r.choice([0.05, 0.1]), "progs": {"P0": r.choice([0.2, 0.4])}}],
+                                 "instr": {"start": float(Y), "stop": None}}}
+            out.append((label, spec))
     return out
 
 
